@@ -205,6 +205,16 @@ func monC11(c *drv.Ctx) {
 			fail("known-field-disturbed", "order: %s; decoded %.200q", shape, fmt.Sprint(got))
 			return
 		}
+		// a receiver that is not fresh (recycled by its owner, fields still set): reading replaces what the
+		// message carries - in particular the map is the message's map, not a merge with the old one
+		if orig.Extra != nil {
+			old := &base.Base{LogID: "stale", Caller: "stale", Addr: "stale", Extra: map[string]string{"__stale_key": "stale", "": "stale-empty"}}
+			if _, err := old.FastRead(in); err != nil || old.LogID != orig.LogID || old.Caller != orig.Caller || old.Addr != orig.Addr || !strMapEq(old.Extra, orig.Extra) {
+				fail("reused-receiver", "FastRead into a receiver that already held values gives %.200q (err=%v)", fmt.Sprint(old), err)
+				return
+			}
+			cs.C.Obs("reads into a used receiver", 1)
+		}
 		// the decoded struct belongs to the caller: what it does with it (here: adds to and clears the map)
 		// must not show up in the next struct decoded from the same bytes
 		if got.Extra != nil {
@@ -276,6 +286,14 @@ func monC11(c *drv.Ctx) {
 		if got.StatusMessage != orig.StatusMessage || got.StatusCode != orig.StatusCode || !strMapEq(got.Extra, orig.Extra) {
 			fail("known-field-disturbed", "order: %s; decoded %.200q", shape, fmt.Sprint(got))
 			return
+		}
+		if orig.Extra != nil {
+			old := &base.BaseResp{StatusMessage: "stale", StatusCode: 77, Extra: map[string]string{"__stale_key": "stale"}}
+			if _, err := old.FastRead(in); err != nil || old.StatusMessage != orig.StatusMessage || old.StatusCode != orig.StatusCode || !strMapEq(old.Extra, orig.Extra) {
+				fail("reused-receiver", "FastRead into a receiver that already held values gives %.200q (err=%v)", fmt.Sprint(old), err)
+				return
+			}
+			cs.C.Obs("reads into a used receiver", 1)
 		}
 		if got.Extra != nil {
 			got.Extra["__added_by_the_owner"] = "x"
